@@ -75,6 +75,8 @@ def gen_case(rng, tier, index):
                              for _ in range(rng.choice([0, 0, 1, 2]))]}
             scen.append(s)
         return {"layer": 2, "scenarios": scen}
+    if rng.random() < 0.3:
+        return _shape_case(rng)
     model = projgen.gen_valid_project(rng, nmin=4, nmax=8,
                                       features=set(rng.sample(["checkoutscript", "diamond", "tools", "vars", "provideDeps",
                                                                "import", "forward", "nobuild"], rng.randint(2, 6))) | {"diamond"})
@@ -84,6 +86,38 @@ def gen_case(rng, tier, index):
         case["fail"] = {"match": rng.choice(["/build/", "/dist/", "/src/"]) if rng.random() < 0.5 else None,
                         "nth": rng.randint(1, 10), "at": rng.randint(1, 6)}
     return case
+
+def _shape_case(rng):
+    """Timing shape that random durations rarely produce: a package reached over a
+    short and a long path fails early, long-running siblings saturate the job
+    slots, so the long path reaches the failed package only after it is done."""
+    import copy
+    leafs = ["c"] + ["x%d" % i for i in range(rng.choice([2, 3, 4]))]
+    recipes = {}
+    def mk(name, deps):
+        r = projgen._leaf(rng)
+        r["depends"] = [{"name": d, "use": ["result", "deps"]} for d in deps]
+        return r
+    for l in leafs:
+        recipes[l] = mk(l, [])
+    chain = ["m", "b"][: rng.choice([1, 2])]
+    prev = "c"
+    for n in reversed(chain):
+        recipes[n] = mk(n, [prev])
+        prev = n
+    rootdeps = ["c"] + leafs[1:] + [prev]
+    rng.shuffle(rootdeps)
+    recipes["root"] = mk("root", rootdeps)
+    order = ["root"] + chain + leafs
+    model = {"recipes": recipes, "classes": {}, "default_env": {}, "sources": {}, "order": order, "features": ["shape-late-visit"]}
+    victim = rng.choice(["c", "c", leafs[1]])
+    dur = [["/build/%s/" % victim, rng.choice([0.5, 1, 0.001]), 1]]
+    for l in leafs[1:]:
+        if l != victim:
+            dur.append(["/build/%s/" % l, rng.choice([2.5, 5, 30]), rng.choice([0, 1])])
+    return {"layer": 1, "model": model, "jobs": rng.choice([2, 2, 3]), "keep_going": rng.random() < 0.8,
+            "sched_seed": rng.getrandbits(32), "durations": [0, 0.001], "duration_by_match": dur,
+            "fail": {"match": "/build/%s/" % victim, "nth": 1, "at": rng.randint(1, 4)}}
 
 def directed_cases(tier):
     # the cook pattern (spawn a child, yield the slot while waiting) under an
@@ -269,7 +303,8 @@ def _layer1(case, stats):
         model = case["model"]
         projgen.materialise(model, proj)
         N = case["jobs"]
-        cfg = {"sched_seed": case["sched_seed"], "durations": case["durations"], "pre_hook": "verifsim.checks.c06:_instrument"}
+        cfg = {"sched_seed": case["sched_seed"], "durations": case["durations"], "pre_hook": "verifsim.checks.c06:_instrument",
+               "duration_by_match": case.get("duration_by_match", [])}
         f = case.get("fail")
         if f:
             cfg["script_faults"] = [{"nth": None if f.get("match") else f["nth"], "match": f.get("match"),
@@ -300,9 +335,16 @@ def _layer1(case, stats):
                     d = os.path.dirname(s["ws"])
                     deps = [os.path.dirname(a) for a in s.get("args", []) if a] + [os.path.dirname(t) for t in s.get("tools", {}).values()]
                     ws_deps.setdefault(d, set()).update(deps)
+        def depends_on(d, target, seen=None):
+            seen = seen if seen is not None else set()
+            if d in seen:
+                return False
+            seen.add(d)
+            return any(x == target or depends_on(x, target, seen) for x in ws_deps.get(d, ()))
         # (b) (c)
         started, ended, running = {}, {}, set()
         failed_ws = None
+        failed_all = []
         for e in ev:
             if e[0] == "sub-start" and e[3][0] == "bash":
                 d = os.path.dirname(e[3][1])
@@ -319,19 +361,18 @@ def _layer1(case, stats):
                     if dep in ended and ended[dep] != 0:
                         return {"kind": "step-ran-after-failed-dependency",
                                 "detail": "%s ran although %s failed with %s" % (d, dep, ended[dep])}, log, True
+                for f_ in failed_all:
+                    if depends_on(d, f_):
+                        return {"kind": "step-ran-after-failed-dependency",
+                                "detail": "%s started although %s, on which it (transitively) depends, had already failed" % (d, f_)}, log, True
             elif e[0] == "sub-end" and e[3][0] == "bash":
                 d = os.path.dirname(e[3][1])
                 running.discard(d)
                 ended[d] = e[4]
-                if e[4] not in (0, "cancelled") and failed_ws is None:
-                    failed_ws = d
-        # transitive dependents of the failed workspace
-        def depends_on(d, target, seen=None):
-            seen = seen or set()
-            if d in seen:
-                return False
-            seen.add(d)
-            return any(x == target or depends_on(x, target, seen) for x in ws_deps.get(d, ()))
+                if e[4] not in (0, "cancelled"):
+                    failed_all.append(d)
+                    if failed_ws is None:
+                        failed_ws = d
         toks = [e for e in ev if e[0] == "tokens"]
         if failed_ws is not None:
             if r.rc == 0:
